@@ -97,6 +97,10 @@ class C02(Check):
         for i, counts in enumerate(plans):
             r = self.rng.fork("plan%d" % i)
             cfg = proc.default_cfg(r if i else None, counts=counts)
+            # the AMF-UE-NGAP-ID the network assigns first: both ends of INTEGER (0..2^40-1), the 32-bit edge, a random one
+            fid = [0, (1 << 40) - 3, 1 << 32, None][i % 4]
+            if fid is not None:
+                cfg["first_amf_id"] = fid
             cfgs.append(cfg)
         # one configuration whose session identity exceeds 255 (recorded finding): IMSI ...0300
         big = proc.default_cfg(counts=[1, 1, 0, 0, 0])
